@@ -314,7 +314,7 @@ CLAIMED = {
     "C23": dict(
         text="Theorems C23_two_participants (two participants, EVERY interleaving of their start / stop steps and every outcome of the ethertype draws - closed "
              "finite set of states with closure and invariants checked inside the kernel: at most one installs the dispatcher at a time, running participants "
-             "have distinct ethertypes), C23_three_participants_explored (the same invariants on all 25860 states of the exhaustive exploration for three), "
+             "have distinct ethertypes), C23_three_participants (the same for three participants: structural closure proof over the 25860 reachable states), "
              "C23_windows_distinct / _disjoint / C23_groups_in_window (EVERY history of window allocations and releases of any number of processes: distinct "
              "window numbers, disjoint windows, sync-group blocks inside the window); C23_refuted_stays_installed gives the machine-checked schedule of the "
              "recorded race. Tie: the REAL ParallelEtherCat.run() runs in forked processes whose operations on the lock directory, the pinned table and the "
@@ -322,8 +322,7 @@ CLAIMED = {
              "equal the model's, the properties are checked after every step; the REAL FMMULock is created concurrently with colliding draws and the creator "
              "interrupted after creating the file.",
         note=TB + "Partial: netlink attach / detach, bpf obj_pin / obj_get / create_map and the raw socket are stand-ins inside the children (files in a scratch "
-             "root; the file-system calls are real); crashes between operations are not modelled; for three participants the closure of the explored set is not "
-             "re-proved structurally. Known finding: the dispatcher does not stay installed (leaver / fresh starter race).",
+             "root; the file-system calls are real); crashes between operations are not modelled; Known finding: the dispatcher does not stay installed (leaver / fresh starter race).",
         technique="Coq finite-state closure proof + invariant proof over histories + real multi-process executions gated at every shared operation",
         ref="5/C23"),
 }
